@@ -88,6 +88,28 @@ P = {
         note="Trusted: bundled Jinja parser, html.parser tokenizer for static markup.", ref="4/C20"),
 }
 
+# clauses added in rounds 5 and 6 (DESIGN.md 7.2), appended to the level text of the property
+EXTRA = {
+    "C01": "Also: the composite emitter takes the nested object's sizes and asserted bounds from t.inner_type.bit_length_set.",
+    "C03": "Also: the expression handed to the assert() macro has no effect of its own (it vanishes with assertion generation off); the allocator-extended copy / move constructors of C++ unions take their value from rhs like those of structures.",
+    "C06": "Also: every C local used in a rendered <T>_serialize_/<T>_deserialize_ body (asserted expressions included) is declared earlier on the same path; the keyword arguments of the generated Python deserializer and the parameters of __init__ enumerate the same fields_except_padding; Python code asks option keys through get_option and section-level keys through get_config_value*.",
+    "C07": "Also: folded unique-name draws sit only in templates every type loads alike; a component of a namespace's folder is printed unguarded only while the folder is stored resolved.",
+    "C08": "Also: every loader get_source consults is enumerated whenever it exists; the DSDL inputs listed come from the traversal the generator itself iterates.",
+    "C09": "Also: the configured encoding rules are applied one after another to the running result and the stability check walks the same list.",
+    "C10": "Also: templates are compiled only for the file about to be rendered while a counter filter is foldable; state mutated through a local alias of an attribute / cached property is inventoried; every class of the LinePostProcessor hierarchy answers the per-file reset for its own state and for the processors it holds.",
+    "C11": "Also: the namespace table is asked with raw DSDL names, never with an attribute of a Namespace object; every public enumeration yields the entries of every visited namespace.",
+    "C12": "Also: nothing on the way from the command line to generate_all() probes the file system (what a run writes is decided by its arguments); an omitted allow_overwrite argument is not a forwarded one.",
+    "C13": "Also: the configuration classes keep no state on the class or in module globals.",
+    "C14": "Also: the half-precision pack clamps to infinity as a 32-bit pattern before narrowing; the setters' copy out of the 8-byte value image is bounded by the image (by copyTo's clamp or at the call).",
+    "C15": "Also: text reaches the output only through _filter_and_write_line and no chunk leaves the scan early; the limiter is installed for every given N, 0 included.",
+    "C17": "Also: options.items() fetched once and walked twice needs a re-iterable view; no language hook hides a configured option from the templates.",
+    "C18": "Also: the union clearing is decided per rendered setter path (guard type.inner_type is UnionType); get_attribute / set_attribute probe the plain name before the suffixed one; the macro's type argument is not re-bound; default array elements are distinct objects.",
+    "C19": "Also: do_lineprefix is reachable only through the filter table; string literals are unescaped after newline normalisation; the `ignore missing` handler closes the try around the template lookup only; every top-level name is published to context.vars.",
+    "C20": "Also: a filter that escapes with quote=False or returns Markup may not feed an attribute value; the namespace macros recurse into every nested namespace unconditionally.",
+}
+for _k, _v in EXTRA.items():
+    P[_k]["text"] = P[_k]["text"] + " " + _v
+
 NOT_BUILT = "check not built yet in this round (planned; see DESIGN.md section 4)"
 
 
